@@ -6,7 +6,7 @@ import ast
 
 from ..astutil import AnalysisError, call_attr, dotted, iter_calls, kw, src
 from ..flow import path_calls
-from ..paths import env_at
+from ..paths import env_at, resolve_name
 from ..props.common import BINARY, ENGINE, OPS, RELATION, SQL_ENGINE, SQL_SELECT, UNARY, Ctx, describe
 from .guards import Required, check_required, is_identity_return
 
@@ -40,6 +40,10 @@ def r20_1_validation_first(ctx: Ctx) -> None:
             if call_attr(v) == "apply":
                 # receiver: a constructor call of an operation class (possibly .partial(...))
                 recv = v.func.value  # type: ignore[union-attr]
+                if isinstance(recv, ast.Name):
+                    b = resolve_name(p, recv.id)
+                    if isinstance(b, ast.expr):
+                        recv = b
                 ctor = recv
                 while isinstance(ctor, ast.Call) and isinstance(ctor.func, ast.Attribute):
                     ctor = ctor.func.value
